@@ -2366,6 +2366,14 @@ impl Prop for C17 {
         run_focus(case, rng, st);
         run_cmp(case, rng, st);
     }
+    fn extra_stage(&self, st: &mut Stats, tier: Tier, _seed: u64) {
+        // the `unsafe` reflection code behind every script call form
+        // (`Type::build_from_default_fn`, `eval_default_fn`, the
+        // `facet::Partial` builder), interpreted by Miri
+        if tier == Tier::Thorough {
+            crate::props::miri::run_miri_stage(st, "script", 0, None, 2 * 3600);
+        }
+    }
     fn finish(&self, st: &mut Stats, _tier: Tier) {
         let mut missing: Vec<String> = vec![];
         for (set, m) in required_coverage() {
